@@ -414,6 +414,9 @@ func genC03(tier string) []Scenario {
 		if d.slot >= 0 && d.inner.slot >= 0 {
 			continue
 		}
+		if d.uses(shSelfRec) && d.uses(shDefaultEdge) && !th {
+			continue // the widest menus inside the deepest recursion: thorough tier only
+		}
 		d := d
 		mk := func(root *spec) (func(h *H, c call) []answer, func(h *H)) {
 			inj := injectMenu(collectActions(root), 2, false)
